@@ -324,6 +324,35 @@ def generate(tier):
     add("macro_forms/field_named_coerced_through_box", "let w: &Write<Lk<'_>> = field!(Gc::write(mc, h), Holder, boxgc); w.unlock().set(Some(child));", group="macro_forms")
     for f, sinkstmt in (("gc", ".unlock().set(Some(child));"), ("gcr", ".unlock().borrow_mut().replace(child);"), ("gco", ".unlock().set(child);")):
         add(f"macro_forms/unlock_on_pointer_field/{f}", f"let _ = field!(Gc::write(mc, h), Holder, {f}){sinkstmt}", group="macro_forms")
+    # unlock! on every holder field, from the barriered holder and from a white co-owner: the macro must stop at the field
+    # itself (no method-call auto-deref into a lock owned by another allocation or shared through Rc / Arc / Box<Gc>)
+    def leaf(t):
+        return t[0] if t[0] in ("L", "R", "O", "Inner") else leaf(t[1])
+    SINK = {"L": ".set(Some(child));", "R": ".borrow_mut().replace(child);", "O": ".set(child);"}
+    for f, t in FIELDS.items():
+        if leaf(t) == "Inner":
+            continue
+        for sname, src in (("holder", "Gc::write(mc, h)"), ("co_owner", "Gc::write(mc, co_owner(mc, h))")):
+            add(f"macro_forms/unlock_macro/{sname}/{f}", f"let _ = unlock!({src}, Holder, {f}){SINK[leaf(t)]}", group="macro_forms")
+    # std interior mutability other than Cell / RefCell holding a pointer under derive(Collect): no Collect impl may admit it
+    STDCELLS = {
+        "OnceCell": ("std::cell::OnceCell<Gc<'gc, Child>>", "std::cell::OnceCell::new()", "let _ = ext.c.set(child);", "e.c.get().is_some()"),
+        "sync_OnceLock": ("std::sync::OnceLock<Gc<'gc, Child>>", "std::sync::OnceLock::new()", "let _ = ext.c.set(child);", "e.c.get().is_some()"),
+        "Mutex": ("std::sync::Mutex<Option<Gc<'gc, Child>>>", "std::sync::Mutex::new(None)", "*ext.c.lock().unwrap() = Some(child);", "e.c.lock().unwrap().is_some()"),
+        "RwLock": ("std::sync::RwLock<Option<Gc<'gc, Child>>>", "std::sync::RwLock::new(None)", "*ext.c.write().unwrap() = Some(child);", "e.c.read().unwrap().is_some()"),
+        "Rc_RefCell": ("Rc<RefCell<Option<Gc<'gc, Child>>>>", "Rc::new(RefCell::new(None))", "*ext.c.borrow_mut() = Some(child);", "e.c.borrow().is_some()"),
+        "Box_Cell": ("Box<Cell<Option<Gc<'gc, Child>>>>", "Box::new(Cell::new(None))", "ext.c.set(Some(child));", "{ let v = e.c.take(); let r = v.is_some(); e.c.set(v); r }"),
+        "Option_OnceCell": ("Option<std::cell::OnceCell<Gc<'gc, Child>>>", "Some(std::cell::OnceCell::new())", "let _ = ext.c.as_ref().unwrap().set(child);", "e.c.as_ref().unwrap().get().is_some()"),
+        "Vec_OnceCell": ("Vec<std::cell::OnceCell<Gc<'gc, Child>>>", "vec![std::cell::OnceCell::new()]", "let _ = ext.c[0].set(child);", "e.c[0].get().is_some()"),
+    }
+    for cname, (cty, cnew, stmt, hold) in STDCELLS.items():
+        for sname, sattr in (("no_drop", "no_drop"), ("unsafe_drop", "unsafe_drop")):
+            sx = (f"#[derive(Collect)]\n#[collect({sattr})]\nstruct H2<'gc> {{ c: {cty} }}\n"
+                  f"type Ext<'gc> = Gc<'gc, H2<'gc>>;\nfn ext<'gc>(mc: &Mutation<'gc>) -> Ext<'gc> {{ Gc::new(mc, H2 {{ c: {cnew} }}) }}\nfn ext_holds<'gc>(e: &Ext<'gc>) -> bool {{ {hold} }}\n")
+            add(f"cell_under_derive/std/{cname}/{sname}", stmt, group="cell_under_derive", ext=sx)
+        # directly as the allocated value
+        sx = (f"type Ext<'gc> = Gc<'gc, {cty}>;\nfn ext<'gc>(mc: &Mutation<'gc>) -> Ext<'gc> {{ Gc::new(mc, {cnew}) }}\nfn ext_holds<'gc>(e: &Ext<'gc>) -> bool {{ {hold.replace('e.c', '(**e)')} }}\n")
+        add(f"cell_under_derive/std/{cname}/direct", stmt.replace("ext.c", "(**ext)"), group="cell_under_derive", ext=sx)
     cellish = {
         "lock_swap": "let other = Lock::new(Some(child)); h.slot.swap(&other);",
         "lock_replace": "let _ = h.slot.replace(Some(child));",
@@ -421,7 +450,7 @@ fn main() {
     return {
         "more": [{"probes": more, "features": "allf", "externs": ("gc_arena", "hashbrown", "indexmap", "slotmap", "smallvec", "enum_map")}],
         "probes": ps,
-        "rule": f"typed term grammar, depth <= {depth} projections: Write source {{Gc::write on the black holder, Gc::write on a white co-owner sharing its Rc/Arc/Gc fields, Write::from_mut of a reference / a clone / a local carrier (Box, Rc, Arc, Vec, array, Option, Result, VecDeque, BTreeMap, HashMap) of a reference, Write::from_static}} x {len(FIELDS)} holder fields (Lock, RefLock, OnceLock directly and behind Box, Rc, Arc, Vec, array, VecDeque, BTreeMap, HashMap, Option, Result, Gc, nested struct, and two-level nestings) x projection chains {{as_deref, as_write, index, range index, key index, field!}} typed under an over-approximate model (DerefWrite / IndexWrite assumed for every pointer and container incl. Gc) x sink by lock kind; plus fixed probes (forged Write, unsafe accessors without unsafe, Cell/RefCell fields under derive incl. require_static + bound combinations, Static<Cell>, user Unlock / DerefWrite / IndexWrite impls, user index types that deref a Gc element - also on hashbrown / indexmap / smallvec containers with all optional features). Every accepted program is run: holder black in a fully marked arena (first and later cycle), fresh white child; violation = child reachable through the holder but destructed. macro forms that do not exist today (positional field arm, expected types forcing a deref coercion, Unlock on a pointer field) and Cell-style mutator names on Lock / RefLock / OnceLock without a Mutation; client types covered by static_collect! (generic with / without where clause, concrete) instantiated with a pointer. Non-trivial = all but the 10 controls",
+        "rule": f"typed term grammar, depth <= {depth} projections: Write source {{Gc::write on the black holder, Gc::write on a white co-owner sharing its Rc/Arc/Gc fields, Write::from_mut of a reference / a clone / a local carrier (Box, Rc, Arc, Vec, array, Option, Result, VecDeque, BTreeMap, HashMap) of a reference, Write::from_static}} x {len(FIELDS)} holder fields (Lock, RefLock, OnceLock directly and behind Box, Rc, Arc, Vec, array, VecDeque, BTreeMap, HashMap, Option, Result, Gc, nested struct, and two-level nestings) x projection chains {{as_deref, as_write, index, range index, key index, field!}} typed under an over-approximate model (DerefWrite / IndexWrite assumed for every pointer and container incl. Gc) x sink by lock kind; plus fixed probes (forged Write, unsafe accessors without unsafe, Cell/RefCell fields under derive incl. require_static + bound combinations, std OnceCell / sync::OnceLock / Mutex / RwLock / Rc<RefCell> / Box<Cell> holding a pointer under derive and as the allocated value, unlock! on every holder field from the holder and from a white co-owner, Static<Cell>, user Unlock / DerefWrite / IndexWrite impls, user index types that deref a Gc element - also on hashbrown / indexmap / smallvec containers with all optional features). Every accepted program is run: holder black in a fully marked arena (first and later cycle), fresh white child; violation = child reachable through the holder but destructed. macro forms that do not exist today (positional field arm, expected types forcing a deref coercion, Unlock on a pointer field) and Cell-style mutator names on Lock / RefLock / OnceLock without a Mutation; client types covered by static_collect! (generic with / without where clause, concrete) instantiated with a pointer. Non-trivial = all but the 10 controls",
         "post": post,
         "level": "exploration",
         "assumptions": ["pinned rustc 1.95 decides acceptance", "exhaustive over the stated grammar, not over all safe programs", "accepted programs are run in one scenario family (holder black / fully marked arena, before and after a first cycle)"],
